@@ -232,6 +232,11 @@ def run_check(prop, cfg, tier, seed, replay=None):
             log = os.path.join(rundir, "j%d-s%d" % (ji, s))
             cmd = [bins[j["variant"]], j["sub"], "--seed", str(seed), "--shard", str(s), "--nshards", str(n), "--tier", tier,
                    "--out", out, "--hashes", hashes]
+            if j.get("valgrind"):
+                # valgrind memcheck translates generated (JIT) code too: a second opinion on its memory accesses. Values computed
+                # under valgrind are not judged (its FP rounding emulation differs); only memcheck errors are.
+                cmd = ["valgrind", "--tool=memcheck", "--error-exitcode=9", "--smc-check=all-non-file", "--num-callers=12",
+                       "--log-file=" + log + ".valgrind"] + cmd
             if "cases" in j:
                 cmd += ["--cases", str(j["cases"])]
             for k, v in j.get("args", {}).items():
@@ -290,6 +295,25 @@ def run_check(prop, cfg, tier, seed, replay=None):
                     violations.append((key, {"sanitizer_log": text, "case": case_hint, "_cmd": t["cmd"], "_variant": t["variant"]}))
                 else:
                     failures.append("job %d shard %d: sanitizer report outside the repository sources: %s" % (t["job"], t["shard"], key))
+        vg = t["log"] + ".valgrind"
+        if os.path.exists(vg):
+            text = open(vg, errors="replace").read()
+            blocks = re.split(r"(?m)^==\d+== \n", text)
+            for blk in blocks:
+                m = re.search(r"==\d+== (Invalid (?:read|write) of size \d+|Conditional jump or move depends on uninitialised value|Use of uninitialised value of size \d+|Invalid free|Mismatched free|Syscall param [^\n]*uninitialised|Source and destination overlap)", blk)
+                if not m:
+                    continue
+                san_found = True
+                kind = re.sub(r"\s+", "-", m.group(1).lower())[:60]
+                fr = re.findall(r"(?:at|by) 0x[0-9A-F]+: (\S+)", blk)
+                repo_fr = [f for f in fr if f.startswith("randomx") or f == "???"]
+                site = repo_fr[0] if repo_fr else (fr[0] if fr else "?")
+                site = re.sub(r"\(.*$", "", site)
+                in_harness_only = bool(fr) and all(("rxv::" in f or f.startswith("sub_") or f in ("main", "memcpy", "memset", "memcmp")) for f in fr[:3]) and not repo_fr
+                if in_harness_only:
+                    failures.append("job %d shard %d: valgrind error in harness code: %s" % (t["job"], t["shard"], kind))
+                else:
+                    violations.append(("valgrind:%s:%s" % (kind, "generated-code" if site == "???" else site), {"valgrind_log": blk[:4000], "case": case_hint, "_cmd": t["cmd"], "_variant": t["variant"]}))
         if timed_out:
             failures.append("job %d shard %d: watchdog fired twice (%ds)" % (t["job"], t["shard"], t["timeout"]))
         elif summ is None and shard_viol == 0 and not san_found:
